@@ -12,3 +12,12 @@ LIB = filemodel.install_repo_models(dict(W.LIB))
 LEMMAS = ["Partition.lean"]
 ASSUMPTIONS = ["pool.map order (S9); process isolation for MultiPool", "HDF5 round trip of a JokerSamples written to the temporary cache",
                "pickling of data/prior when the helper is sent to worker processes"]
+
+# the readers the workers rely on (rows in the order of the index array / slice, exact conversion factors) - proved in C12, listed here
+# too because the batching-independence claim depends on them
+from . import c12 as _C12   # noqa: E402
+
+CONTRACTS += _C12.read_batch_slice + _C12.read_batch_idx + _C12.read_batch
+for _k, _v in _C12.CALLEES.items():
+    CALLEES.setdefault(_k + "#c12", _v)
+C12_CALLEES = dict(_C12.CALLEES)
